@@ -27,6 +27,9 @@ fn main() {
         let client = JobClient::new_num(n);
         let client: &'static JobClient = Box::leak(Box::new(client));
         let mut pending: BTreeMap<u64, Fut> = BTreeMap::new(); let mut held: BTreeMap<u64, Tok> = BTreeMap::new();
+        // a token handed over inside the very first poll (the helper thread won a microsecond race): the request counts as queued until the
+        // next settle point, like every other request (the model grants at settle points only)
+        let mut early: BTreeMap<u64, Tok> = BTreeMap::new();
         let mut next = 0u64; let mut lines = vec![format!("new {}", n)];
         let mut granted_order: Vec<u64> = vec![];
         let len = 6 + rng.below(16);
@@ -48,14 +51,18 @@ fn main() {
                 let t: Vec<&str> = op.split(' ').collect();
                 match t[0] {
                     "request" => { let mut f: Fut = acq(client); let r = futures::poll!(f.as_mut());
-                        if let std::task::Poll::Ready(Some(tok)) = r { held.insert(next, tok); granted_order.push(next); } else { pending.insert(next, f); }
+                        if let std::task::Poll::Ready(Some(tok)) = r { early.insert(next, tok); } else { pending.insert(next, f); }
                         next += 1; lines.push("request -> - | -".into()); }
-                    "cancel" => { let id: u64 = t[1].parse().unwrap(); if pending.remove(&id).is_some() { cancels += 1; } lines.push(format!("cancel {} -> - | -", id)); }
+                    "cancel" => { let id: u64 = t[1].parse().unwrap(); if pending.remove(&id).is_some() || early.remove(&id).is_some() { cancels += 1; } lines.push(format!("cancel {} -> - | -", id)); }
                     "exit" => { let id: u64 = t[1].parse().unwrap(); held.remove(&id); lines.push(format!("exit {} -> - | -", id)); }
                     _ => {
                         settles += 1;
                         // quiescence: the helper thread hands tokens over asynchronously
-                        for _round in 0..3 {
+                        for (id, tok) in std::mem::take(&mut early) { held.insert(id, tok); granted_order.push(id); }
+                        for round in 0..40 {
+                            // three rounds at least; more (up to half a second) only while a token is free and a request waits, i.e. the helper
+                            // thread has not caught up yet (a loaded machine must not look like a lost token)
+                            if round >= 3 && (pending.is_empty() || held.len() >= n) { break; }
                             tokio::time::sleep(Duration::from_millis(12)).await;
                             let ids: Vec<u64> = pending.keys().cloned().collect();
                             for id in ids { let f = pending.get_mut(&id).unwrap();
@@ -71,7 +78,7 @@ fn main() {
                 }
             }
             // ---- no leak: release everything, then exactly n tokens can be held again
-            held.clear(); pending.clear();
+            held.clear(); pending.clear(); early.clear();
             tokio::time::sleep(Duration::from_millis(25)).await;
             let mut toks = vec![];
             for _ in 0..n { match tokio::time::timeout(Duration::from_secs(5), acq(client)).await { Ok(Some(t)) => toks.push(t), _ => break } }
@@ -79,6 +86,16 @@ fn main() {
             lines.push(format!("refill -> - | refilled={} extra={}", toks.len(), extra));
             if toks.len() != n { fails.push(fail_json("token_leak", &format!("only {} of {} tokens can be acquired after the history", toks.len(), n), &lines, "")); }
             if extra { fails.push(fail_json("extra_token", &format!("{} + 1 tokens could be held", n), &lines, "")); }
+            // ---- "at no time", however long a request has been waiting: with all n tokens held, a queued request must still be queued after
+            //      a (simulated: tokio's clock is paused and advanced) day; no timer may let it through without a token
+            if toks.len() == n && !extra {
+                let mut f: Fut = acq(client); let _ = futures::poll!(f.as_mut());
+                tokio::time::pause(); tokio::time::advance(Duration::from_secs(86_400)).await;
+                let r = futures::poll!(f.as_mut()); tokio::time::resume();
+                let through = matches!(r, std::task::Poll::Ready(Some(_)));
+                lines.push(format!("longwait -> - | through={}", through));
+                if through { fails.push(fail_json("request_let_through_without_token", &format!("a request that had waited a (simulated) day with all {} tokens held was let through", n), &lines, "")); }
+            }
         });
         // FIFO among requests that were never cancelled: ids are granted in increasing order
         let mut sorted = granted_order.clone(); sorted.sort();
